@@ -267,6 +267,25 @@ def run_stream(ts, op):
         s["d1"] = len(ctx.draws)
         if stop:
             break
+        if op.get("also") is not None and s["status"] == "ok":
+            # the SAME event object is handed to a second stream afterwards (one SourceEvents pass, two consumers)
+            s2 = {"path": path, "live": [], "snap": [], "status": "ok", "d0": len(ctx.draws), "data": None, "mem": s.get("mem"), "sidx": op["also"]}
+            sources.append(s2)
+            try:
+                s2["data"] = se["source"]["data"]
+                for ev in ts.streams[op["also"]].enum(se):
+                    if not drop:
+                        s2["live"].append(ev)
+                    s2["snap"].append(copy.deepcopy(ev))
+                    if k is not None:
+                        k.yield_point("env")
+            except (SimCancelled, SimKilled):
+                ctx.obs = None
+                raise
+            except Exception as e:  # noqa: BLE001
+                s2["status"], s2["error"] = "foreign", [type(e).__name__, str(e)]
+            ctx.obs = None
+            s2["d1"] = len(ctx.draws)
     draws = ctx.draws[d_op:]
     norm = []
     for s in sources:
